@@ -186,11 +186,16 @@ func cmdCheck(argv []string) int {
 			continue
 		}
 		ok, why := eng.checkConstStr(cs)
+		oname := fmt.Sprintf("conststr[%s#%d]", cs.Callee, cs.Ord)
+		if cs.NoStore {
+			ok, why = eng.checkNoStore(cs)
+			oname = "nostore[" + cs.Callee + "]"
+		}
 		q := "(assert false)\n(check-sat)\n"
 		if !ok {
 			q = "; " + why + "\n(check-sat)\n"
 		}
-		results = append(results, &OblResult{Func: strings.TrimPrefix(cs.PkgPath, modulePath+"/") + "." + cs.Func, Name: fmt.Sprintf("conststr[%s#%d]", cs.Callee, cs.Ord), Kind: "conststr", Tags: cs.Tags,
+		results = append(results, &OblResult{Func: strings.TrimPrefix(cs.PkgPath, modulePath+"/") + "." + cs.Func, Name: oname, Kind: "conststr", Tags: cs.Tags,
 			Src: cs.Src + map[bool]string{true: "", false: "  -- " + why}[ok], Where: fmt.Sprintf("%s:%d", cs.File, cs.Line), Expect: "unsat", Bytes: len(q), query: q})
 	}
 	// vacuity guard for the trusted axioms: the prelude as a whole must not be refutable
